@@ -335,7 +335,7 @@ class Gen:
             return self.expr_steps(ctx, s) if s.value is not None else []
         if isinstance(s, ast.Raise):
             pre = self.expr_steps(ctx, s)
-            return pre + ['Raise %d' % self.label(ctx.fname, 'raise')]
+            return pre + ['Raise %d %s' % (self.label(ctx.fname, 'raise'), self.raise_kind(s))]
         if isinstance(s, ast.If):
             return self.if_stmt(ctx, s, in_loop)
         if isinstance(s, ast.For):
@@ -353,6 +353,32 @@ class Gen:
                 self.refuse(ctx, s, 'break/continue outside a loop')
             return ['BRKMARK']     # accepted by for_stmt only in a loop without any effect on the world
         self.refuse(ctx, s, 'statement kind %s not supported' % type(s).__name__)
+
+    RAISE_KIND = {'ValueError': 'KValue', 'RuntimeError': 'KRuntime', 'NotImplementedError': 'KRuntime',
+                  'OSError': 'KOS', 'IOError': 'KOS', 'FileNotFoundError': 'KOS', 'TimeoutError': 'KTimeout',
+                  'MemoryError': 'KMemory', 'KeyboardInterrupt': 'KBase', 'SystemExit': 'KBase'}
+    HANDLER_CLASS = {'BaseException': 'HBase', 'Exception': 'HException', 'OSError': 'HOS', 'IOError': 'HOS',
+                     'EnvironmentError': 'HOS', 'TimeoutError': 'HTimeout', 'ValueError': 'HValue',
+                     'RuntimeError': 'HRuntime', 'MemoryError': 'HMemory', 'KeyboardInterrupt': 'HKeyboard'}
+
+    def raise_kind(self, s):
+        e = s.exc
+        if isinstance(e, ast.Call):
+            e = e.func
+        return self.RAISE_KIND.get(dotted(e) if e is not None else None, 'KOther')
+
+    def handler_classes(self, ctx, s, h):
+        """the exception classes an except clause names -> list of StatusLang.hclass (fail closed)"""
+        if h.type is None:
+            return ['HBase']
+        elts = h.type.elts if isinstance(h.type, ast.Tuple) else [h.type]
+        out = []
+        for e in elts:
+            n = dotted(e)
+            if n not in self.HANDLER_CLASS:
+                self.refuse(ctx, s, 'except clause for a class outside the modelled hierarchy: %s' % ast.unparse(e))
+            out.append(self.HANDLER_CLASS[n])
+        return out
 
     def calls_with_steps(self, ctx, node):
         save = (list(self.labels), dict(self.label_count))
@@ -464,7 +490,7 @@ class Gen:
         attempts = [self.seq(self.walk(ctx, t.body)) for _ in range(n)]
         term = attempts[-1]
         for a in reversed(attempts[:-1]):
-            term = 'Try (%s) (%s) false false' % (a, term)
+            term = 'Try (%s) (%s) false [HException]' % (a, term)
         self.notes.append('%s: retry loop over %d temp paths translated as nested try' % (ctx.fname, n))
         return [term]
 
@@ -502,25 +528,13 @@ class Gen:
             self.refuse(ctx, s, 'try with several handlers')
         h = s.handlers[0]
         body = self.walk(ctx, s.body, in_loop)
-        if h.type is None:
-            catch_base = 'true'
-        else:
-            tn = dotted(h.type)
-            if tn == 'Exception':
-                catch_base = 'false'
-            elif tn == 'BaseException':
-                catch_base = 'true'
-            else:
-                # a handler for one specific exception class does not catch an arbitrary failure
-                self.notes.append('%s: `except %s` handler not translated (assumption: that exception is not raised)' % (ctx.fname, tn))
-                return body
+        hcs = '[' + '; '.join(self.handler_classes(ctx, s, h)) + ']'
         hb = list(h.body)
         reraise = 'false'
         if hb and isinstance(hb[-1], ast.Raise):
             r = hb.pop()
             if r.exc is not None and not (isinstance(r.exc, ast.Name) and r.exc.id == h.name):
-                # raise OtherError(...) still propagates an exception
-                pass
+                self.refuse(ctx, s, 'handler raises a different exception')
             reraise = 'true'
         for x in hb:
             for n in ast.walk(x):
@@ -529,7 +543,7 @@ class Gen:
         handler = self.walk(ctx, hb, in_loop=False)
         if not body:
             return []
-        return ['Try (%s) (%s) %s %s' % (self.seq(body), self.seq(handler), reraise, catch_base)]
+        return ['Try (%s) (%s) %s %s' % (self.seq(body), self.seq(handler), reraise, hcs)]
 
     # ---------------------------------------------------------------- functions
     def build(self, name):
@@ -684,7 +698,29 @@ import fw
 
 GEN_PATH = os.path.join(fw.COQ, 'Gen', 'GenStatus.v')
 ST_NAMES = ['none', 'unfinished', 'FAIL', 'OK', 'other']
-KIND = {'exc': 1, 'base': 2, 'partial': 3, 'base_partial': 4, 'kill': 2}   # SIGKILL: no handler runs, like a non-Exception
+# model kind codes (StatusLang.ekind): KRuntime 0, KValue 1, KOS 2, KTimeout 3, KMemory 4, KOther 5, KBase 6
+EXC_KIND = {'RuntimeError': 0, 'ValueError': 1, 'ENOSPC': 2, 'EIO': 2, 'IOError': 2, 'TimeoutError': 3,
+            'MemoryError': 4, None: 5, 'Injected': 5, 'KeyboardInterrupt': 6, 'InjectedBase': 6}
+EXC_MAIN = ['RuntimeError', 'ValueError', 'ENOSPC', 'EIO', 'IOError', 'MemoryError', 'KeyboardInterrupt', None]
+# inside pool workers: no KeyboardInterrupt (multiprocessing.Pool then hangs: outside the model) and no
+# TimeoutError (swallowed on purpose by run_tagging_tasks: -max_time_per_segment)
+EXC_WORKER = ['RuntimeError', 'ValueError', 'ENOSPC', 'EIO', 'IOError', 'MemoryError', None]
+
+
+def fault_code(f):
+    """model fault code of an injected fault: 100 + kind (raised before any effect) / 200 + kind (after a
+    partial effect); SIGKILL is compared with a non-Exception (no handler runs)"""
+    kind = f.get('kind', 'exc')
+    if kind in ('base', 'base_partial', 'kill'):
+        k = 6
+    else:
+        k = EXC_KIND[f.get('exc')]
+    return (200 if kind in ('partial', 'base_partial') else 100) + k
+
+
+def worker_side(f, mp):
+    return f.get('where') == 'worker' or f['point'] in ('worker', 'sort_worker', 'rg_header_worker') or \
+        (mp and f['point'] in ('write_pysam', 'write_tags', 'mol_next', 'mol_end'))
 
 CONFIGS = {
     'chic_s': {'method': 'chic', 'bam': 'chic', 'mp': False},
@@ -772,8 +808,30 @@ class Prop(fw.PropBase):
         quick = self.tier == 'quick'
         out = []
 
-        def add(cfg, faults, pre='fresh', tag=None):
-            out.append({'config': cfg, 'faults': faults, 'pre': pre})
+        rot = itertools.count()
+
+        def add(cfg, faults, pre='fresh', input=None):
+            # vary the class of the injected exception over the cases (round robin)
+            mp = CONFIGS[cfg]['mp']
+            fs = []
+            for f in faults:
+                f = dict(f)
+                if 'exc' not in f and f.get('kind', 'exc') in ('exc', 'partial'):
+                    pool = EXC_WORKER if worker_side(f, mp) else EXC_MAIN
+                    e = pool[next(rot) % len(pool)]
+                    if e:
+                        f['exc'] = e
+                fs.append(f)
+            c = {'config': cfg, 'faults': fs, 'pre': pre}
+            if input:
+                c['input'] = input
+            out.append(c)
+
+        def sweep(cfg, fault):
+            # one fault point, every exception class
+            mp = CONFIGS[cfg]['mp']
+            for e in (EXC_WORKER if worker_side(fault, mp) else EXC_MAIN):
+                add(cfg, [dict(fault, exc=e or 'Injected')])
 
         F = lambda point, **kw: dict(point=point, **kw)
         for cfg in ('chic_s', 'nla_s'):
@@ -852,6 +910,29 @@ class Prop(fw.PropBase):
             add(cfg, [F('pysam_merge', kind='partial')], pre='prev_ok')
             add(cfg, [F('index_out')], pre='prev_ok')
             add(cfg, [F('write_status', after=1)], pre='prev_ok')
+        # every exception class at representative fault points of each pipeline
+        for cfg in ('chic_s', 'nla_s'):
+            n = self.n_mol[cfg]
+            for fl in (F('verify'), F('mol_next', after=n // 2), F('write_tags', after=n // 2), F('write_pysam', after=n // 2),
+                       F('write_pysam', after=n - 1, kind='partial'), F('mol_end', total=n), F('rg_header'),
+                       F('sort', first=3), F('sort', first=1), F('sort', first=3, kind='partial'), F('index_out'),
+                       F('remove_unsorted'), F('write_status', after=1)):
+                sweep(cfg, fl)
+        for cfg in ('chic_m', 'nla_m'):
+            n = self.n_mol[cfg]
+            for fl in (F('pool'), F('worker', after=0), F('write_pysam', after=0, where='worker'),
+                       F('write_pysam', after=n // 2, where='worker'), F('mol_next', after=n // 2, where='worker'),
+                       F('write_tags', after=0, where='worker'), F('sort_worker', first=3), F('rg_header_worker'),
+                       F('index_header'), F('pysam_merge'), F('pysam_merge', kind='partial'), F('index_out'),
+                       F('remove_merged_input', after=0), F('rmtree'), F('write_status', after=1)):
+                sweep(cfg, fl)
+        # histories of the INPUT file: verify_and_fix_bam must (re)build a missing or outdated index, or
+        # reads are silently not fetched and the "complete" output lacks records of the current input
+        for cfg in ('nla_s', 'nla_m', 'chic_s', 'chic_m'):
+            for hist in ('stale_index_shorter', 'stale_index_longer', 'missing_index'):
+                add(cfg, [], input=hist)
+                add(cfg, [], pre='prev_ok', input=hist)
+                add(cfg, [F('index_out')], input=hist)
         if not quick:
             # SIGKILL samples (process death is not modelled; compared with "no handler runs")
             for cfg in ('chic_s', 'nla_s'):
@@ -883,12 +964,12 @@ class Prop(fw.PropBase):
         mp = CONFIGS[case['config']]['mp']
         plan = []
         for f in case['faults']:
-            pt, kind = f['point'], KIND[f.get('kind', 'exc')]
-            worker_side = f.get('where') == 'worker' or pt in ('worker', 'sort_worker', 'rg_header_worker')
-            if mp and (worker_side or pt in ('write_pysam', 'write_tags', 'mol_next', 'mol_end')):
+            pt, kind = f['point'], fault_code(f)
+            if mp and worker_side(f, mp):
                 if pt == 'sort_worker' and f.get('first', 3) < 3:
                     continue       # retried inside the worker: no failure visible to the pipeline
-                plan.append((L_JOB_LOOP, 0, 1))
+                # the exception travels through the pool with its class and is raised by next(job_generator)
+                plan.append((L_JOB_LOOP, 0, 100 + kind % 100))
             elif pt == 'write_status':
                 if f['after'] == 0:
                     plan.append(('run_multiome_tagging/write_status#0', 0, kind))
@@ -912,7 +993,7 @@ class Prop(fw.PropBase):
                 plan.append(('sorted_bam_file/add_readgroups_to_header#0', 0, kind))
             elif pt == 'sort':
                 # a non-Exception is not caught by the retry loop: the first attempt ends the run
-                for j in range(1 if kind in (2, 4) else f['first']):
+                for j in range(1 if kind % 100 == 6 else f['first']):
                     plan.append(('sort_and_index/pysam.sort#%d' % j, 0, kind))
             elif pt == 'index_out':
                 plan.append(('merge_bams/pysam.index#0' if mp else 'sort_and_index/pysam.index#0', 0, kind))
@@ -1072,7 +1153,7 @@ class Prop(fw.PropBase):
         pred = self.predict(cases)
         dis = []
         for c, r, m in zip(cases, res, pred):
-            if r['world'] != m['world'] or min(r['raised'], 3) != m['raised']:
+            if r['world'] != m['world'] or r['raised'] != m['raised']:
                 dis.append({'input': c, 'impl': {'world': describe(r['world']), 'raised': r['raised'], 'error': r.get('error')},
                             'model': {'world': describe(m['world']), 'raised': m['raised'], 'fault_steps': m['fault_steps']}})
         self.cov['traces_validated_against_impl'] = len(cases)
@@ -1107,7 +1188,10 @@ class Prop(fw.PropBase):
                     try:
                         c = json.load(open(os.path.join(d, fn)))
                         if c.get('config') in CONFIGS:
-                            out.append({'config': c['config'], 'faults': c['faults'], 'pre': c.get('pre', 'fresh')})
+                            e = {'config': c['config'], 'faults': c['faults'], 'pre': c.get('pre', 'fresh')}
+                            if c.get('input'):
+                                e['input'] = c['input']
+                            out.append(e)
                     except Exception:
                         pass
         return out
@@ -1149,7 +1233,9 @@ class Prop(fw.PropBase):
             elif not r['raised'] and not c['faults'] and w != [3, 1, 1, 1, 1]:
                 bad = 'a fault-free run does not end with status OK and a complete sorted indexed output'
             if bad:
-                pts = '+'.join(f['point'] for f in c['faults']) or 'none'
+                pts = '+'.join(f['point'] + (':' + f['exc'] if f.get('exc') else '') for f in c['faults']) or 'none'
+                if c.get('input'):
+                    pts += '@input-' + c['input']
                 pipe = 'multiprocess' if CONFIGS[c['config']]['mp'] else 'single'
                 key = 'ok_early:%s:%s' % (pipe, pts)
                 size = len(c['faults']) * 1000 + sum(f.get('after', 0) for f in c['faults']) + (500 if c.get('pre') == 'prev_ok' else 0)
